@@ -164,7 +164,7 @@ def theorem_tie(eng, rng, oc, n):
         text = apage.render_item(it)
         oc.evaluations += 1
         case = {"item_text": text, "item": it}
-        if not eng.call("item_tidy", it) or eng.call("item_text", it) != text:
+        if not (eng.call("item_tidy", it) == "t") or eng.call("item_text", it) != text:
             oc.corr_mismatch.append(("abstract item: tidy / canonical text", case, eng.call("item_text", it), text))
             return False
         r = fc.compile_text("# h\n\n" + text + "\n", today, False)
